@@ -1039,3 +1039,96 @@ Proof.
   - (* fetch *) unfold do_fetch. apply Jw_ev. brk; apply Jw_upd; auto; upd_side.
   - exact HJ.
 Qed.
+
+Lemma Jw_other g w w0 : w0 <> w -> Jw g w0 -> Jw (step g w) w0.
+Proof.
+  intros Hne HJ s' a Hn Ha Hl Hc.
+  pose proof (step_wev g w w0 Hne) as Hw. rewrite Hn in Hw. simpl in Hw.
+  destruct (nth_error (g_ws g) w0) as [s|] eqn:Hs; simpl in Hw; [|discriminate].
+  unfold wcore in Hw. inversion Hw as [[E1 E2 E3 E4 E5]]. rewrite E1, E3 in *. rewrite E2 in Hc. rewrite E4 in Hl.
+  destruct (HJ s a Hs Ha Hl Hc) as [A1 [A2 [r [Hr [Hlk Hrest]]]]].
+  split; [auto|split; [auto|]]. exists r. split; auto.
+  eapply vevo_frame; [apply step_vev| | |]; eauto.
+Qed.
+
+(* C06 records: a COMMIT that held the lock of its bounded source since GetBalances leaves the source at >= -allowance *)
+Definition c06_ok (c : c06rec) : Prop := c_locked c = true -> - c_allow c <= c_after c.
+Definition invA (g : gst) : Prop := unlocked_clean (g_vols g) /\ (forall w, Jw g w) /\ Forall c06_ok (g_c06 g).
+
+Lemma v_commit_key w x : v_key (v_commit w x) = v_key x.
+Proof. unfold v_commit. destruct (owner_is _ _); reflexivity. Qed.
+
+Lemma step_invA g w : invA g -> invA (step g w).
+Proof.
+  intros [HU [HJ HC]]. split; [|split].
+  - eapply vevo_clean; [apply step_vev|exact HU].
+  - intros w0. destruct (Nat.eq_dec w0 w) as [->|Hne]; [apply Jw_own; auto|apply Jw_other; auto].
+  - unfold step. destruct (get_w g w) as [s|] eqn:Hs; [|exact HC].
+    destruct (w_pc s) eqn:Hpc;
+      try (assert (H : fev w g (step g w)) by (apply (step_fev g w s); auto; congruence);
+           unfold step in H; rewrite Hs, Hpc in H; rewrite (proj2 H); exact HC); try exact HC.
+    unfold do_commit. simpl. apply Forall_app. split; [exact HC|].
+    destruct (allowance (w_op s)) as [a|] eqn:Ha; [|constructor].
+    constructor; [|constructor]. unfold c06_ok; simpl. intros Hl.
+    destruct (HJ w s a Hs Ha Hl) as [A1 [A2 [r [Hr [Hlk [Hb Hp]]]]]]; [rewrite Hpc; reflexivity|].
+    unfold committed_bal. rewrite vfind_map by (apply v_commit_key). rewrite Hr. simpl.
+    unfold v_commit. rewrite Hlk. simpl. rewrite Nat.eqb_refl. simpl.
+    unfold src_delta in Hp. destruct Hp as [Hp|[_ Hp]]; [lia|]. destruct (ckey_eqb _ _); lia.
+Qed.
+
+Theorem invA_all_schedules g sched : invA g -> invA (run g sched).
+Proof. apply run_inv. apply step_invA. Qed.
+
+(* ---------------------------------------------------------------- C06: if the source rows exist, every COMMIT held the lock *)
+Lemma map_op_upd ws w f : (forall s, w_op (f s) = w_op s) -> map w_op (upd_nth ws w f) = map w_op ws.
+Proof. intros Hf. revert w. induction ws as [|x r IH]; intros [|w]; simpl; auto; rewrite ?Hf, ?IH; auto. Qed.
+Lemma map_op_clear ws h : map w_op (clear_waits ws h) = map w_op ws.
+Proof. unfold clear_waits. rewrite map_map. apply map_ext. intros s. destruct (owner_is _ _); reflexivity. Qed.
+
+Definition oev (g g' : gst) : Prop := map w_op (g_ws g') = map w_op (g_ws g).
+Lemma oev_trans g1 g2 g3 : oev g1 g2 -> oev g2 g3 -> oev g1 g3.
+Proof. unfold oev. congruence. Qed.
+Lemma oev_ws g g' w f : g_ws g' = upd_nth (g_ws g) w f -> (forall s, w_op (f s) = w_op s) -> oev g g'.
+Proof. unfold oev. intros -> H. apply map_op_upd; auto. Qed.
+Lemma oev_same g g' : g_ws g' = g_ws g -> oev g g'.
+Proof. unfold oev. intros ->. reflexivity. Qed.
+Lemma oev_abort g w : oev g (abort g w).
+Proof. unfold oev, abort; simpl. apply map_op_clear. Qed.
+Ltac oev_calc := unfold oev; simpl; repeat (first [rewrite map_op_upd by (intros; reflexivity) | rewrite map_op_clear]); reflexivity.
+Lemma oev_fail_abort g w e : oev g (fail_abort g w e).
+Proof. unfold fail_abort. oev_calc. Qed.
+Lemma oev_ev_fail_abort g w e w1 l st : oev g (ev (fail_abort g w e) w1 l st).
+Proof. unfold fail_abort. oev_calc. Qed.
+Lemma oev_blocked g w h l : oev g (blocked g w h l).
+Proof. unfold blocked. destruct (reaches _ _ _ _); [apply oev_ev_fail_abort|oev_calc]. Qed.
+Lemma oev_bal_done g w o r lk : oev g (bal_done g w o r lk).
+Proof. unfold bal_done, fail_soft. brk; oev_calc. Qed.
+Lemma oev_vol_loop ks : forall g w i, oev g (vol_loop g w ks i).
+Proof.
+  induction ks as [|[k d] r IH]; simpl; intros g w i.
+  - oev_calc.
+  - brk; try (eapply oev_trans; [|apply IH]; apply oev_same; reflexivity).
+    eapply oev_trans; [|apply oev_blocked]. oev_calc.
+Qed.
+Ltac oev_tac := first [ oev_calc | apply oev_blocked | apply oev_ev_fail_abort
+                      | (eapply oev_trans; [|apply oev_blocked]; oev_calc)
+                      | (eapply oev_trans; [|apply oev_ev_fail_abort]; oev_calc) ].
+Lemma step_oev g w : oev g (step g w).
+Proof.
+  unfold step. destruct (get_w g w) as [s|]; [|apply oev_same; reflexivity].
+  destruct (w_pc s).
+  - unfold do_ik, fail_soft. brk; oev_tac.
+  - unfold do_rev, fail_soft. brk; oev_tac.
+  - unfold do_bal. brk; try (eapply oev_trans; [|apply oev_blocked]; oev_calc);
+      unfold ev; match goal with |- oev ?g (set_ev (bal_done ?g1 ?w ?o ?r ?lk) _) =>
+        pose proof (oev_bal_done g1 w o r lk) as H; unfold oev in *; simpl in *; exact H end.
+  - apply oev_vol_loop.
+  - unfold do_tx. destruct (my_pending_tx g w); brk; oev_tac.
+  - unfold do_adv. brk; oev_tac.
+  - unfold do_log. destruct (g_hash g && negb (owner_is (g_adv g) w)); [apply oev_same; reflexivity|].
+    destruct (my_pending_log g w); brk; oev_tac.
+  - unfold do_commit. oev_calc.
+  - unfold do_rollback, abort. brk; oev_calc.
+  - unfold do_fetch. brk; oev_tac.
+  - apply oev_same; reflexivity.
+Qed.
